@@ -129,7 +129,9 @@ def _get_send_offset(connection):
 
 
 def mapstar(args):
-    return list(map(*args))
+    # not list(map(...)): a StopIteration raised by the function would be
+    # taken for the end of the chunk and the failure silently dropped.
+    return [args[0](x) for x in args[1]]
 
 
 def starmapstar(args):
